@@ -118,7 +118,10 @@ HStep(hh, pre, post, m, ev) ==
       \* hinted heartbeat response whose context was confirmed by a quorum of voting members
       newRtr == {post.rtr[k] : k \in 1..Len(post.rtr)} \ (IF pre.up THEN {pre.rtr[k] : k \in 1..Len(pre.rtr)} ELSE {})
       newResp == {x \in post.msgs : x.mtype = "ReadIndexResp"} \ (IF pre.up THEN pre.msgs ELSE {})
+      \* (a leader that has just become the only voting member releases what was pending: nobody is left to confirm it,
+      \* raft.releasePendingReadIndexes)
       released == pre.up /\ pre.role = "L" /\ ~SingleQuorum(pre) /\ (newRtr # {} \/ newResp # {})
+                  /\ ~(post.up /\ post.role = "L" /\ SingleQuorum(post))
       cf == {x[4] : x \in {y \in h12.ricf : y[1] = n /\ y[2] = pre.term /\ y[3] = m.hint}}
       h13 == IF TrackEvidence /\ released /\ ~(m.mtype = "HeartbeatResp" /\ m.hint # 0 /\
                                Cardinality((cf \cap VotingIds(pre)) \cup {n}) >= Quorum(pre))
